@@ -39,10 +39,10 @@ def jobs(prop, tier, seed):
             optsets = [{}, {"check_type": True}] if tier == "quick" else [{}, {"check_type": True}, {"fall_back_on_any": True, "check_type": True}]
         for o in optsets:
             if tier == "quick":
-                b = dict(depth=2, width=2, strlen=2)
+                b = dict(depth=2, width=2, strlen=2, td_extra=True)
                 budget_s = 25
             else:
-                b = dict(depth=3, width=3, strlen=3)
+                b = dict(depth=3, width=3, strlen=3, td_extra=True)
                 budget_s = 120
             out.append(dict(harness="C04", pool="ser", pid=pid, opts=o, bounds=b, budget_s=budget_s))
     return out
